@@ -287,7 +287,10 @@ impl FromStr for KeyName {
                 && f.len() > 1
                 && string[1..].chars().all(|c| c.is_ascii_digit()) =>
             {
-                let index = string[1..].parse().expect("coding error");
+                // all digits, but the number may still be too large for usize
+                let index = string[1..]
+                    .parse()
+                    .map_err(|_| Error::ParseError("KeyName", string.to_string()))?;
                 KeyName::F(index)
             }
             cs if cs.chars().count() == 1 => {
